@@ -127,8 +127,19 @@ impl Scenario for Reads {
                 }
                 6 => {
                     // absent exact point: wrong hash, slot in a gap, beyond the tip, before the first block
-                    let kind = cx.ch.draw("absent.kind", 4);
+                    let kind = cx.ch.draw("absent.kind", 6);
                     let (slot, hash) = match (kind, imm.is_empty()) {
+                        (4, false) => {
+                            // real hash of a block, slot a little too small (an empty slot before it)
+                            let b = &imm[cx.ch.draw("absent.idx", imm.len() as u64) as usize];
+                            (b.slot.saturating_sub(1 + cx.ch.draw("absent.under", 3)), b.hash.clone())
+                        }
+                        (5, false) => {
+                            // slot of one block with the hash of another
+                            let a = &imm[cx.ch.draw("absent.idx", imm.len() as u64) as usize];
+                            let b = &imm[cx.ch.draw("absent.idx2", imm.len() as u64) as usize];
+                            (a.slot, b.hash.clone())
+                        }
                         (_, true) => (5, vec![7u8; 32]),
                         (0, _) => {
                             let b = &imm[cx.ch.draw("absent.idx", imm.len() as u64) as usize];
@@ -146,7 +157,7 @@ impl Scenario for Reads {
                     }
                     cx.tr.ev("from_absent", &[kind, slot]);
                     cx.st.inc("probe.absent_exact");
-                    let names = ["wrong-hash", "beyond-tip", "before-first", "slot-in-gap"];
+                    let names = ["wrong-hash", "beyond-tip", "before-first", "slot-in-gap", "real-hash-slot-too-small", "slot-of-one-block-hash-of-another"];
                     let kind = if slot > imm.last().map(|b| b.slot).unwrap_or(0) { 1 } else { kind };
                     match read_blocks_from_point(&scratch.dir, Point::Specific(slot, hash)) {
                         Ok(it) => {
